@@ -67,6 +67,11 @@ def impl_case(case):
             if tup(o) != tuple(case[1]):
                 raise AssertionError("conversion changed the location: %r" % (tup(o),))
         return (tuple(t), tup(back), tup(two), tup(d1), tup(d2), tup(d3), tup(d4), tup(d5), d2 is a, ds)
+    if kind == "extract":
+        a = Location(*case[1])
+        feat = a.to_biopython_feature(feature_type="misc_feature", label="x") if a.strand in (-1, 0, 1) else None
+        back = tup(Location.from_biopython_location(feat.location)) if feat is not None else None
+        return a.extract_sequence(case[2]), back
     if kind == "windows":
         r = windows_overlap(case[1], case[2])
         return None if r is None else tuple(r)
@@ -157,6 +162,15 @@ def oracle(case, out):
             return "from_data(Location) returned the caller's object, not a new one"
         if d4 is not None and (d4 != a or d5 != a):
             return "biopython round trip changed the location: %r" % (out,)
+    elif kind == "extract":
+        a, seq = case[1], case[2]
+        sub = seq[a[0]:a[1]]
+        if a[2] == -1:
+            sub = "".join({"A": "T", "C": "G", "G": "C", "T": "A"}[c] for c in reversed(sub))
+        if out[0] != sub:
+            return "extract_sequence on %r gives %r, expected %r" % (a, out[0], sub)
+        if out[1] is not None and out[1] != a:
+            return "to_biopython_feature / from_biopython_location changed the location: %r" % (out[1],)
     elif kind == "windows":
         pass  # helper of the mutation space; its contract is checked by C04/C15
     return None
@@ -183,6 +197,8 @@ def coq_case(case, out):
     if kind == "tuple":
         t = o[0]
         return "KTuple %s (%s, %s, %s) %s" % (cloc(case[1]), cz(t[0]), cz(t[1]), cz(t[2]), cloc(o[1]))
+    if kind == "extract":
+        return None
     if kind == "windows":
         return "KWindows %s %s %s" % (cpair(cz(case[1][0]), cz(case[1][1])), cpair(cz(case[2][0]), cz(case[2][1])),
                                       copt(o, lambda p: cpair(cz(p[0]), cz(p[1]))))
@@ -221,6 +237,8 @@ def gen_cases(rng, tier):
         cases.append(("shift", a, rng.randint(-50, 50)))
         cases.append(("indices", a))
         cases.append(("tuple", a))
+        if 0 <= a[0] <= a[1] <= 40:
+            cases.append(("extract", a, "".join(rng.choice("ACGT") for _ in range(rng.randint(a[1], a[1] + 5)))))
     # merge: lists of up to 5 non-empty locations in a small box (+ duplicates, nested, touching)
     ne = [t for t in box_locs(0, 8) if t[0] < t[1]]
     nmerge = 1500 if tier == "quick" else 60000
